@@ -485,6 +485,7 @@ EGLPNUM_TYPENAME_QSLIB_INTERFACE int EGLPNUM_TYPENAME_QSopt_pivotin_col (
 	int basismod = 0;
 	int rval = 0;
 	int i;
+	int *cols = 0;
 
 	rval = check_qsdata_pointer (p);
 	CHECKRVALG (rval, CLEANUP);
@@ -494,9 +495,11 @@ EGLPNUM_TYPENAME_QSLIB_INTERFACE int EGLPNUM_TYPENAME_QSopt_pivotin_col (
 		ILL_ERROR (rval, "pricing info not available in QSopt_pivotin\n");
 	}
 
+	/* the caller's numbers are structural column numbers, like everywhere else
+	 * in the interface */
 	for (i = 0; i < ccnt; i++)
 	{
-		if (clist[i] < 0 || clist[i] >= p->qslp->ncols)
+		if (clist[i] < 0 || clist[i] >= p->qslp->nstruct)
 		{
 			QSlog("entry %d in clist out of range", i);
 			rval = 1;
@@ -513,7 +516,17 @@ EGLPNUM_TYPENAME_QSLIB_INTERFACE int EGLPNUM_TYPENAME_QSopt_pivotin_col (
 		goto CLEANUP;
 	}
 
-	rval = EGLPNUM_TYPENAME_ILLsimplex_pivotin (p->lp, p->pricing, ccnt, clist,
+	/* the simplex works on internal column numbers */
+	if (ccnt > 0)
+	{
+		ILL_SAFE_MALLOC (cols, ccnt, int);
+		for (i = 0; i < ccnt; i++)
+		{
+			cols[i] = p->qslp->structmap[clist[i]];
+		}
+	}
+
+	rval = EGLPNUM_TYPENAME_ILLsimplex_pivotin (p->lp, p->pricing, ccnt, cols,
 														 SIMPLEX_PIVOTINCOL, &basismod);
 	CHECKRVALG (rval, CLEANUP);
 
@@ -522,6 +535,7 @@ EGLPNUM_TYPENAME_QSLIB_INTERFACE int EGLPNUM_TYPENAME_QSopt_pivotin_col (
 
 CLEANUP:
 
+	ILL_IFFREE (cols);
 	EG_RETURN (rval);
 }
 
